@@ -318,6 +318,9 @@ class SimplicialComplex(Hypergraph):
         if not members:  # empty simplices cannot be added
             return
 
+        if None in members:  # validate before the first write
+            raise XGIError("None cannot be a node")
+
         idx = next(self._edge_uid) if not idx else idx
 
         self._add_simplex(members, idx, **attr)
@@ -489,6 +492,14 @@ class SimplicialComplex(Hypergraph):
                     warn(f"uid {idx} already exists, cannot add simplex {members}.")
                     continue
 
+                # validate before the first write
+                try:
+                    member_set = frozenset(members)
+                except TypeError as e:
+                    raise XGIError("Invalid ebunch format") from e
+                if None in member_set:
+                    raise XGIError("None cannot be a node")
+
                 if max_order is not None:
                     if len(members) > max_order + 1:
                         combos = powerset(
@@ -498,12 +509,7 @@ class SimplicialComplex(Hypergraph):
 
                         continue
 
-                try:
-                    _ = frozenset(members)
-                except TypeError as e:
-                    raise XGIError("Invalid ebunch format") from e
-
-                self._add_simplex(frozenset(members), idx)
+                self._add_simplex(member_set, idx)
 
                 update_uid_counter(self, idx)
 
@@ -583,6 +589,14 @@ class SimplicialComplex(Hypergraph):
 
                 continue
 
+            # validate before the first write
+            try:
+                member_set = frozenset(members)
+            except TypeError as e:
+                raise XGIError("Invalid ebunch format") from e
+            if None in member_set:
+                raise XGIError("None cannot be a node")
+
             # needs to go after the check for existence, otherwise
             # we're skipping ID numbers when edges already exist
             if format1 or format3:
@@ -612,10 +626,7 @@ class SimplicialComplex(Hypergraph):
 
                 continue
 
-            try:
-                self._edge[idx] = frozenset(members)
-            except TypeError as e:
-                raise XGIError("Invalid ebunch format") from e
+            self._edge[idx] = member_set
 
             for n in members:
                 if n not in self._node:
